@@ -322,3 +322,15 @@ UNITS["bufio"] = {
     "root_uses": "",
     "extern": [],
 }
+
+# ------------------------------------------------------------------------------------------------
+# unit refine: pure lemmas -- the byte-level contracts of log.rs (unit log) imply the record-level ones (assumed in unit store)
+UNITS["refine"] = {
+    "name": "refine",
+    "header": BUFIO_HEADER,
+    "specs": [],
+    "parts": [("raw", "prelude/refine_prelude.rs", "prelude"), ("raw", "lemmas/refine_lemmas.rs", "lemma")],
+    "mod_uses": {},
+    "root_uses": "",
+    "extern": [],
+}
